@@ -80,7 +80,7 @@ func (c c08) Generate(e *Env) ([]*Case, error) {
 	}
 	r := 16
 	if thorough {
-		r = 128
+		r = 72
 	}
 	for i := 0; i < r; i++ {
 		seed := fmt.Sprint(100 + rng.Intn(1<<30))
@@ -100,7 +100,7 @@ func (c c08) Generate(e *Env) ([]*Case, error) {
 	// The p1 diamond (types declared in dependencies at three depths, JSON) and other configurations.
 	n := 4
 	if thorough {
-		n = 32
+		n = 16
 	}
 	for i := 0; i < n; i++ {
 		cache := "user-cold"
